@@ -78,6 +78,7 @@ pub fn long_token_inputs(top: u32) -> Vec<(String, String)> {
         ("question-run", Box::new(|n| format!("a{}1:2", "?".repeat(n)))),
         ("spaces-before", Box::new(|n| format!("{}1", " ".repeat(n)))),
         ("mixed-whitespace-inside", Box::new(|n| format!("f{}(1{}){}", " \t\r\n".repeat(n), "\n".repeat(n), "\t".repeat(n)))),
+        ("control-char-names-in-blank-runs", Box::new(|n| format!("{}\u{1}{}a{}\u{1f}{}", " ".repeat(n), " ".repeat(n), "\t".repeat(n), "\n".repeat(n)))),
         ("semicolons", Box::new(|n| format!("1{}", ";".repeat(n)))),
         ("commas", Box::new(|n| format!("[1{}]", ",".repeat(n)))),
         ("word-operator-lookalike", Box::new(|n| format!("1 in{} [1]", "n".repeat(n)))),
